@@ -248,14 +248,43 @@ def coq_makefile():
 def prove(pid, timeout=1500, clean=False):
     """Full .vo build of Properties_<pid>.vo and what it depends on.
     Returns dict(obligations, discharged, theorems, axioms, ok, log, failed)."""
+    import fcntl
+    os.makedirs(BUILD, exist_ok=True)
+    lockf = open(os.path.join(BUILD, "coq.lock"), "w")
+    fcntl.flock(lockf, fcntl.LOCK_EX)        # concurrent checks share coq/: one make at a time
+    try:
+        return _prove_locked(pid, timeout, clean)
+    finally:
+        fcntl.flock(lockf, fcntl.LOCK_UN)
+        lockf.close()
+
+
+def _prove_locked(pid, timeout, clean):
     srcfacts()
     coq_makefile()
-    if clean:
-        run(["make", "clean"], cwd=COQ, timeout=120)
     target = "Properties_%s.vo" % pid
     src = os.path.join(COQ, "Properties_%s.v" % pid)
     res = {"obligations": 0, "discharged": 0, "theorems": [], "axioms": {}, "ok": False,
            "log": "", "failed": [], "checker_cmd": "make -k -j16 -C coq " + target}
+    if clean:
+        # thorough tier: the property file and everything it depends on is also rebuilt from
+        # nothing in a private copy of the sources (leaves coq/ and its .vo files alone)
+        cd = os.path.join(BUILD, "coq-clean-%s-%d" % (pid, os.getpid()))
+        shutil.rmtree(cd, ignore_errors=True)
+        os.makedirs(cd)
+        for f in os.listdir(COQ):
+            if f.endswith(".v") or f == "_CoqProject":
+                shutil.copy(os.path.join(COQ, f), cd)
+        run(["coq_makefile", "-f", "_CoqProject", "-o", "Makefile"], cwd=cd, timeout=120)
+        rc0, out0, err0 = run(["make", "-k", "-j16", target], cwd=cd, timeout=timeout * 2)
+        ok0 = rc0 == 0 and os.path.exists(os.path.join(cd, target))
+        shutil.rmtree(cd, ignore_errors=True)
+        res["clean_build"] = "ok" if ok0 else "FAILED"
+        if not ok0:
+            m = re.findall(r'File "\./([^"]+)", line (\d+)', out0 + err0)
+            res["log"] = (out0 + err0)[-8000:]
+            res["failed"] = ["clean build: %s:%s" % x for x in m] or ["clean build: make rc=%d" % rc0]
+            return res
     gate = coq_gate()
     txt = open(src).read()
     thms = re.findall(r"^\s*(?:Theorem|Example)\s+([A-Za-z0-9_']+)", txt, flags=re.M)
